@@ -14,13 +14,13 @@ for arg in sys.argv[1:]:
         try: conf = json.loads(open(cf).read())
         except Exception as e: print(name, "confirmation unreadable", e); continue
         if not conf.get("ok"): print(name, "NOT CONFIRMED", {k: conf.get(k) for k in ("demo_passes_without", "demo_fails_with", "builds", "suite_passes_with", "why")}); continue
-        res = mutant.check(diff, checks) or {}
+        res = mutant.checkwt(diff, checks) or {}
         out = os.path.join("/verif/seeded", name); os.makedirs(out, exist_ok=True)
         shutil.copy(diff, os.path.join(out, "patch.diff")); shutil.copy(os.path.join(d, "m%s_demo_test.go" % n), os.path.join(out, "demo_test.go"))
         readme = os.path.join(d, "m%s_README.md" % n)
         json.dump({"breaks_property": pid, "needs_to_manifest": (open(readme).read()[:1800] if os.path.exists(readme) else ""),
                    "confirmed": {k: conf[k] for k in ("demo_passes_without", "demo_fails_with", "builds", "suite_passes_with", "demo_cmd")},
-                   "what_was_run": "tools/mutant.py confirm (own scratch worktree: go build, go vet, full `go test -count=1 ./...`, demonstration with and without the patch); tools/mutant.py check (git -C /repo apply, ./check <id> quick for each listed check, git -C /repo checkout -- .)",
+                   "what_was_run": "tools/mutant.py confirm (own scratch worktree: go build, go vet, full `go test -count=1 ./...`, demonstration with and without the patch); tools/mutant.py checkwt (patch applied in a scratch worktree of /repo, VERIF_REPO=<worktree> ./check <id> quick for each listed check, worktree removed; equivalent to tools/mutant.py check, which applies the patch to /repo itself and undoes it)",
                    "checks": {k: {"exit": v["exit"], "violations": v["violations"], "clause": v.get("clause", "")} for k, v in res.items()},
                    "caught_by": [k for k, v in res.items() if v["exit"] != 0]}, open(os.path.join(out, "meta.json"), "w"), indent=1)
         print(name, "filed; caught by", [k for k, v in res.items() if v["exit"] != 0])
